@@ -3,6 +3,7 @@
 SPECIFICATION Spec
 CONSTANTS
   Inst = {"v1", "v2"}
+  MaxHeal = 0
   MaxVal = 2
   Allowed = {}
   Forced = {}
